@@ -13,7 +13,8 @@
 (***************************************************************************)
 EXTENDS Naturals, FiniteSets, Sequences, TLC
 
-CONSTANTS Keys, Parent, Root, IsDirKey, LazyDirs, Filters, FilterKeys, MaxSteps
+CONSTANTS Keys, Parent, Root, IsDirKey, LazyDirs, Filters, FilterKeys, MaxSteps, Changed, ChangedLazy
+\* Changed = the keys in which the changed copy differs (hash-wise); ChangedLazy = the lazy directories above them
 \* Keys = every key of the explicit index (files, lazy directories, the directories inside them)
 \* FilterKeys[f] = the keys filter f accepts (prefix-closed: accepts the ancestors of what it accepts)
 
@@ -67,6 +68,9 @@ FsInfo(k)     == Do("FsInfo", <<k>>, [kind |-> "get", r |-> RefGet(k)], LoadsGet
 FsCat(k)      == Do("FsCat", <<k>>, [kind |-> "bytes", r |-> k], LoadsGet(k))
 FsFind(k)     == Do("FsFind", <<k>>, [kind |-> "keys", r |-> {x \in RefIter(k) : ~IsDirKey[x]}], LoadsIter(k))
 HashDiff      == Do("HashDiff", <<>>, [kind |-> "keys", r |-> Keys], LazyDirs)
+\* the hash-level diff against a copy of T that differs below one lazy directory only, unchanged entries not asked for:
+\* exactly the keys that differ (Changed) are reported, and the lazy directories whose hash differs are expanded
+HashDiffChanged == Do("HashDiffChanged", <<>>, [kind |-> "keys", r |-> Changed], ChangedLazy)
 
 Next ==
     \/ \E k \in Keys : Get(k) \/ Info(k) \/ FsInfo(k)
@@ -74,7 +78,7 @@ Next ==
     \/ \E k \in {x \in Keys : ~IsDirKey[x]} : FsCat(k)
     \/ \E p \in {x \in Keys : IsDirKey[x]} \cup {Root}, sh \in BOOLEAN : Iter(p, sh)
     \/ \E f \in Filters : ViewIter(f)
-    \/ HashDiff
+    \/ HashDiff \/ HashDiffChanged
 
 Init == loaded = {} /\ last = [kind |-> "none"] /\ act = [op |-> "Init"] /\ steps = 0
 Spec == Init /\ [][Next]_vars
